@@ -47,6 +47,7 @@ static PlanOp gen_any_op(Rng& rng, bool thorough)
         op.buffer = rng.pick(std::vector<int>{ BUF_SIM, BUF_STRING, BUF_VIEW, BUF_CSTRING });
         op.stream = rng.pick(std::vector<int>{ STR_NONE, STR_SIM, STR_OSS });
         op.verbose = rng.chance(1, 3);
+        if (rng.chance(1, 4)) { op.api = API_MATCHER_DEBUG; op.raw.clear(); op.faults.clear(); op.stream = rng.chance(1, 2) ? STR_SIM : STR_OSS; }
         return op;
     }
     std::string key = rng.pick(pk);
